@@ -6,9 +6,12 @@ Per-instruction memory accesses and matched frames are taken from the handler it
 from common import *
 from c26 import WF
 
-FRAMES = 'DEFFRAME 0 "a":\n\tDIRECTION: "tx"\nDEFFRAME 1 "a":\n\tDIRECTION: "tx"\nDEFFRAME 0 1 "b":\n\tDIRECTION: "tx"\nDECLARE x BIT[4]\nDECLARE y BIT[4]'
+# qubit 2 is only touched by a two-qubit frame (so RESET 2 / FENCE 2 match frames without using any exactly)
+FRAMES = ('DEFFRAME 0 "a":\n\tDIRECTION: "tx"\nDEFFRAME 1 "a":\n\tDIRECTION: "tx"\nDEFFRAME 0 1 "b":\n\tDIRECTION: "tx"\nDEFFRAME 1 2 "c":\n\tDIRECTION: "tx"\n'
+          'DECLARE x BIT[4]\nDECLARE y BIT[4]')
 REG = ["x", "y"]
 Q = [0, 1]
+Q3 = [0, 1, 2]
 FN = ["a", "b"]
 CLASSICAL = [
     Tpl("move-lit", "MOVE {d}[0] 1", d=("str", REG)),
@@ -24,10 +27,10 @@ RF = [
     Tpl("capture", 'CAPTURE {q} "{f}" ' + WF + " {d}[0]", q=("int", Q), f=("str", FN), d=("str", REG)),
     Tpl("setphase", 'SET-PHASE {q} "{f}" {s}[0]', q=("int", Q), f=("str", FN), s=("str", REG)),
     Tpl("shiftfreq", 'SHIFT-FREQUENCY {q} "{f}" 1.0', q=("int", Q), f=("str", FN)),
-    Tpl("delay", "DELAY {q} 1.0", q=("int", Q)),
-    Tpl("fence", "FENCE {q}", q=("int", Q)),
+    Tpl("delay", "DELAY {q} 1.0", q=("int", Q3)),
+    Tpl("fence", "FENCE {q}", q=("int", Q3)),
     Tpl("fenceall", "FENCE"),
-    Tpl("reset", "RESET {q}", q=("int", Q)),
+    Tpl("reset", "RESET {q}", q=("int", Q3)),
     Tpl("swapphases", 'SWAP-PHASES 0 "a" 1 "a"'),
 ]
 TERMS = [Tpl("jumpwhen", "JUMP-WHEN @l {s}[0]", s=("str", REG)), Tpl("halt", "HALT")]
